@@ -263,7 +263,7 @@ def plan(tier, seed):
                 rule=('inputs: 7-residue windows of %s with stride %d (every interior residue is judged in chain context), all %d ligand '
                       'templates, 5 flattened planar fragments; modes: default and --protonate-all; motions: identity for the geometric '
                       'invariants and complement, 24 rotations x {generic translation, x,y,z near 9900} for equivariance (quick: 6 rotations '
-                      'for windows, 24 for templates and flat fragments). also: the program\'s own hydrogens written back and kept (all, one missing in turn, at riding distances), hydrogens present in the input under default options in three naming styles, residues under alias names of the parameter file, capped peptides (ACE/NME), host application with DEBUG logging. non-trivial = distinct (input, mode, motion) with at least one '
+                      'for windows, 24 for templates and flat fragments). guanidinium / amide fragments with the sp2 carbon lifted 0.10-0.25 A out of plane, a metal ion at exactly 2.000 A from a histidine nitrogen (binary-exact coordinates, identity pose only); also: the program\'s own hydrogens written back and kept (all, one missing in turn, at riding distances), hydrogens present in the input under default options in three naming styles, residues under alias names of the parameter file, capped peptides (ACE/NME), host application with DEBUG logging. non-trivial = distinct (input, mode, motion) with at least one '
                       'created hydrogen') % ('2 proteins' if tier == 'quick' else '4 proteins', 5 if tier == 'quick' else 2, len(gen.TEMPLATES)),
                 bounds=dict(inputs=len(ins)), samples=[ins[0], ins[-1]])
 
